@@ -31,7 +31,7 @@ Fixpoint get_multibyte_loop (n : nat) (i : N) (result : N) (acc : list N) : prog
   | S n' =>
       b <- read_u8 ;;
       let result' := N.lxor result (M64 (N.shiftl (N.land b 127) (i * 7))) in
-      if N.land b 128 =? 0 then Ret (result', rev (b :: acc))
+      if N.land b 128 =? 0 then Ret (result', lrev (b :: acc))
       else get_multibyte_loop n' (i + 1) result' (b :: acc)
   end.
 Definition get_multibyte : prog ioE (N * list N) := get_multibyte_loop 9 0 0 [].
@@ -67,7 +67,7 @@ Definition padding_of (count : N) : N := N.land (N.lxor count 3 + 1) 3.
 
 Fixpoint read_zero_padding (n : nat) (acc : list N) : prog ioE (list N) :=
   match n with
-  | O => Ret (rev acc)
+  | O => Ret (lrev acc)
   | S n' => b <- read_u8 ;; if negb (b =? 0) then Fail EXz else read_zero_padding n' (b :: acc)
   end.
 
@@ -99,7 +99,7 @@ Record block_header := mkBH { bh_filters : list filter; bh_packed : option N; bh
 
 Fixpoint read_filters (n : nat) (header_size : N) (l : list N) (acc : list filter) : lres (list filter) :=
   match n with
-  | O => Done (rev acc, l)
+  | O => Done (lrev acc, l)
   | S n' =>
       match lget_multibyte l with
       | Failed e => Failed e | Panicked p => Panicked p
@@ -221,7 +221,7 @@ Definition xz_body (fuel : positive) (check : check_method) (st : list record * 
   | (Panicked p, w1) => Break (Panicked p, w1)
   | (Done hs, w1) =>
       if hs =? 0 then
-        match run_io (check_index start (rev records)) w1 with
+        match run_io (check_index start (lrev records)) w1 with
         | (Done _, w2) => Break (Done (s_pos (i_src w2) - start), w2)
         | (Failed e, w2) => Break (Failed e, w2)
         | (Panicked p, w2) => Break (Panicked p, w2)
